@@ -38,6 +38,9 @@ type c17RCase struct {
 	Kill       bool  `json:"kill"`       // KillJob while run 1 waits for the sink's answer to its KillAt-th request (0 = first)
 	KillAt     int   `json:"killAt,omitempty"`
 	Transform  bool  `json:"transform"`
+	// Triggers > 1: the same job object is triggered Triggers times back to back (a cron schedule shorter than
+	// the retry delay, a burst of on-change events): several failing executions end inside one retryDelay window
+	Triggers int `json:"triggers,omitempty"`
 }
 
 func c17RerunList(tier string) []c17RCase {
@@ -52,6 +55,8 @@ func c17RerunList(tier string) []c17RCase {
 		{K: 6, B: 2, MaxRetries: 2, DelayMs: 1000, FailRuns: 99, Kill: true},
 		// killed after the log handler has already dealt with a rejected entity of this run
 		{K: 6, B: 1, Log: true, LogFirst: true, MaxRetries: 2, DelayMs: 1000, Fail: []int{0}, Kill: true, KillAt: 2},
+		// three triggers of a permanently failing job inside one retry delay
+		{K: 3, B: 3, MaxRetries: 1, DelayMs: 1000, FailRuns: 99, Triggers: 3},
 		// sink down during the first execution only; transform + capped log + reRun
 		{K: 10, B: 3, Log: true, LogFirst: true, MaxItems: 2, MaxRetries: 3, DelayMs: 1000, FailRuns: 1, Transform: true},
 	}
@@ -82,6 +87,13 @@ func c17RerunList(tier string) []c17RCase {
 					for _, tr := range []bool{true, false} {
 						out = append(out, c17RCase{K: k + 2, B: 3, Log: true, LogFirst: r%2 == 1, MaxItems: 2, MaxRetries: r, DelayMs: d, FailRuns: t, Transform: tr})
 						out = append(out, c17RCase{K: k + 2, B: 1, Log: true, LogFirst: r%2 == 0, MaxItems: 1, MaxRetries: r, DelayMs: d, FailRuns: t, Transform: tr})
+					}
+				}
+				// several failing executions inside one retry delay (delay well above the few ms the triggers take)
+				if d == 40 {
+					for _, tg := range []int{2, 3} {
+						out = append(out, c17RCase{K: 3, B: 3, MaxRetries: r, DelayMs: 400, FailRuns: 99, Triggers: tg})
+						out = append(out, c17RCase{K: 3, B: 2, Log: true, LogFirst: tg%2 == 0, MaxItems: 1, MaxRetries: r, DelayMs: 400, FailRuns: 99, Triggers: tg})
 					}
 				}
 				// log handler isolates a permanently rejected entity; reRun next to it
@@ -151,6 +163,9 @@ func c17Rerun(ctx *Ctx) error {
 		if c.Log {
 			tags = append(tags, "log+rerun")
 		}
+		if c.Triggers > 1 {
+			tags = append(tags, "several-triggers-within-retry-delay")
+		}
 		if c.Kill {
 			tags = append(tags, "kill")
 			if c.KillAt > 1 && len(c.Fail) > 0 {
@@ -180,8 +195,8 @@ func (st *c17State) runRerun(caseID string, pos int, c c17RCase) {
 	var evs []c17Ev
 	viol := func(class, msg string, exp, got any) {
 		out.Stat("viol:"+class, 1)
-		out.Viol(caseID, "C17", class, fmt.Sprintf("k=%d b=%d log=%v maxItems=%d maxRetries=%d delay=%dms failRuns=%d fail=%v kill=%v@%d transform=%v: %s",
-			c.K, c.B, c.Log, c.MaxItems, c.MaxRetries, c.DelayMs, c.FailRuns, c.Fail, c.Kill, c.KillAt, c.Transform, msg), exp, got, map[string]any{"events": c17HeadEv(evs, 160)})
+		out.Viol(caseID, "C17", class, fmt.Sprintf("k=%d b=%d log=%v maxItems=%d maxRetries=%d delay=%dms failRuns=%d fail=%v kill=%v@%d transform=%v triggers=%d: %s",
+			c.K, c.B, c.Log, c.MaxItems, c.MaxRetries, c.DelayMs, c.FailRuns, c.Fail, c.Kill, c.KillAt, c.Transform, c.Triggers, msg), exp, got, map[string]any{"events": c17HeadEv(evs, 160)})
 	}
 	src, err := st.ensureSource(c.K)
 	if err != nil {
@@ -256,6 +271,13 @@ func (st *c17State) runRerun(caseID string, pos int, c c17RCase) {
 		return
 	}
 	out.Stat("rerun_cases_run", 1)
+	triggers := 1
+	for t := 1; t < c.Triggers && !panicked; t++ {
+		// the trigger fires again (same job object) right after the failed execution, long before the retry delay is over
+		panicked, pmsg, _ = c10RunGuarded(js[0].RunAsCron)
+		triggers++
+		out.Stat("extra_triggers_issued", 1)
+	}
 	if panicked {
 		evs = c17Merge(jobID, nil, st.h.Log.Snapshot())
 		viol("job-panic", "the job goroutine panicked: "+firstLine(pmsg), nil, pmsg)
@@ -269,7 +291,12 @@ func (st *c17State) runRerun(caseID string, pos int, c c17RCase) {
 	}
 	expect := 1
 	if !c.Kill {
-		expect = 1 + minInt(failing, c.MaxRetries)
+		expect = triggers + minInt(failing, c.MaxRetries)
+		if triggers > 1 {
+			// pending re-runs of several failed executions may coincide (the later one finds the job running and is
+			// skipped): only "at least one re-execution" can be expected, the deciding rule is the upper bound
+			expect = triggers + minInt(failing, 1)
+		}
 	}
 	starts := func() int {
 		n := 0
@@ -360,10 +387,42 @@ func (st *c17State) runRerun(caseID string, pos int, c c17RCase) {
 		out.Stat("ev:sink_rejects", int64(o.Rejected))
 		out.Stat("ev:handler_reports", int64(o.NRep))
 	}
-	if nexec-1 > c.MaxRetries {
-		viol("too-many-reruns", fmt.Sprintf("%d re-executions with maxRetries=%d", nexec-1, c.MaxRetries), c.MaxRetries, nexec-1)
+	// executions made by the reRun handler: the hub's own "re-running job" lines, and executions beyond the triggers
+	// issued here (a trigger that found the job running is skipped by the hub, which only lowers this count)
+	rerunLogs := 0
+	handlerMade := make([]bool, nexec)
+	for ri, run := range runs {
+		afterEnd := false
+		for _, e := range run {
+			if e.Kind == "end" {
+				afterEnd = true
+			}
+			if e.Kind == "rerun-log" {
+				rerunLogs++
+				if afterEnd && ri+1 < nexec {
+					handlerMade[ri+1] = true
+				}
+			}
+		}
+	}
+	out.Stat("handler_rerun_log_lines", int64(rerunLogs))
+	reruns := nexec - triggers
+	if rerunLogs > reruns {
+		reruns = rerunLogs
+	}
+	if reruns > c.MaxRetries {
+		cl := "too-many-reruns"
+		if triggers > 1 {
+			cl += "/several-failing-executions-within-retry-delay"
+		}
+		viol(cl, fmt.Sprintf("%d executions for %d triggers, %d 're-running job' lines: %d re-executions by the reRun handler with maxRetries=%d", nexec, triggers, rerunLogs, reruns, c.MaxRetries), c.MaxRetries, reruns)
+	} else if triggers > 1 {
+		out.Stat("multi_trigger_reruns_within_budget", 1)
 	}
 	for ri := 1; ri < nexec; ri++ {
+		if triggers > 1 && !handlerMade[ri] {
+			continue // started by a trigger of the scenario, not by the handler
+		}
 		prev := sums[ri-1]
 		if prev.killed && prev.end != "terminated" {
 			viol("rerun-after-kill", fmt.Sprintf("run %d was re-executed although run %d was killed (the hub logged its termination, then recorded %q)", ri+1, ri, prev.end), "no re-execution", nexec)
@@ -381,7 +440,8 @@ func (st *c17State) runRerun(caseID string, pos int, c c17RCase) {
 				out.Stat("rerun_after_run_without_any_rejection", 1)
 			}
 		}
-		if prev.endNs > 0 {
+		if prev.endNs > 0 && triggers == 1 {
+			// (with several triggers the pending re-run belongs to an earlier failed execution than the previous one)
 			gap := sums[ri].startNs - prev.endNs
 			out.StatMax("max:rerun_gap_ms", gap/1e6)
 			if gap < int64(delay) {
